@@ -422,7 +422,11 @@ func (s *Session) cleanUp(expired bool) {
 		s.sessionStoreLock.Unlock()
 	}
 
-	s.background = false
+	// Topics read the flag from their own goroutines until the session is detached below:
+	// do not write it unless there is something to change.
+	if s.background {
+		s.background = false
+	}
 	s.bkgTimer.Stop()
 	s.unsubAll()
 	// Stop the write loop.
